@@ -17,10 +17,10 @@ def check(tier, seed):
     q = tier == "quick"
     plans = []
     for cfg, n in ((0, 6000), (1, 4000), (2, 3000), (3, 2000)):
-        plans.append(dict(flavour="serial", label="serial-cfg%d" % cfg, args=["--cfg", cfg, "--threads", 3, "--ops", 200, "--range", 60], total=n if q else n * 40))
-    plans.append(dict(flavour="asan", label="asan-cfg0", args=["--cfg", 0, "--threads", 3, "--ops", 200, "--range", 60], total=3000 if q else 100000, chunk=188, timeout=900))
-    plans.append(dict(flavour="asan", label="asan-cfg2", args=["--cfg", 2, "--threads", 3, "--ops", 300, "--range", 400], total=1500 if q else 50000, chunk=94, timeout=900))
-    plans.append(dict(flavour="free", label="free-cfg1", args=["--cfg", 1, "--threads", 4, "--ops", 300, "--range", 100], total=3000 if q else 100000, chunk=188, timeout=600))
+        plans.append(dict(flavour="serial", label="serial-cfg%d" % cfg, args=["--cfg", cfg, "--threads", 3, "--ops", 200, "--range", 60], total=n if q else n * 10))
+    plans.append(dict(flavour="asan", label="asan-cfg0", args=["--cfg", 0, "--threads", 3, "--ops", 200, "--range", 60], total=3000 if q else 30000, chunk=188, timeout=900))
+    plans.append(dict(flavour="asan", label="asan-cfg2", args=["--cfg", 2, "--threads", 3, "--ops", 300, "--range", 400], total=1500 if q else 15000, chunk=94, timeout=900))
+    plans.append(dict(flavour="free", label="free-cfg1", args=["--cfg", 1, "--threads", 4, "--ops", 300, "--range", 100], total=3000 if q else 30000, chunk=188, timeout=600))
     res = run_ds("C26", "h_btdel", tier, seed, plans, RULE)
     # every history is a distinct random operation sequence
     res.nontrivial = set(range(res.evaluations))
